@@ -169,7 +169,8 @@ def getattr_(ex, o, name):
                 from . import contracts as _C
 
                 if isinstance(m_, _C.Callback):
-                    return ex.cfg.fresh(ex, m_, name)
+                    cbv = ex.cfg.fresh(ex, m_, name)
+                    return Bound(cbv, o) if getattr(m_, 'with_self', False) else cbv
                 return Bound(m_, o)
             if name == '__class__':
                 return ho.cls
